@@ -58,7 +58,8 @@ Definition dec_outcome (t : toks) : option (outcome * toks) :=
   end.
 
 (* fn 5: the validate command.  payload: mapfiles arguments, matched files
-   with outcomes.  result: echoed lines, validation_count, errors, status *)
+   with outcomes.  result: echoed lines, validation_count, errors, the
+   argument of sys.exit (0 when the command returns without it), status *)
 Definition obs_validate (t : toks) : toks :=
   match dec_list dec_str t with
   | Some (mapfiles, t1) =>
@@ -67,7 +68,8 @@ Definition obs_validate (t : toks) : toks :=
           let '(lines, status) := validate_cmd mapfiles files in
           let st := validate_loop files in
           enc_list enc_str lines
-            ++ [Z.of_nat (validation_count st); Z.of_nat (errors st); Z.of_N status]
+            ++ [Z.of_nat (validation_count st); Z.of_nat (errors st);
+                Z.of_N (match files with [] => 0%N | _ => validate_exit_arg st end); Z.of_N status]
       | None => bad_input
       end
   | None => bad_input
@@ -95,4 +97,11 @@ Definition obs_get_mapfiles (t : toks) : toks :=
       | None => bad_input
       end
   | None => bad_input
+  end.
+
+(* fn 8: the OS side of sys.exit(n) *)
+Definition obs_exit_status (t : toks) : toks :=
+  match t with
+  | n :: _ => [Z.of_N (exit_status (Z.to_N n))]
+  | [] => bad_input
   end.
